@@ -53,6 +53,10 @@ def hasMemSel (sf : Nat) : Bool := sf == 0x17 || sf == 0x18 || sf == 0x19
 
 def be3 (bs : Bytes) : Nat := fromBE (bs.take 3)
 
+/-- an optional byte of the header (memory-selection echo, severity availability mask) -/
+def optByte (cond : Bool) (d : Bytes) (i : Nat) : Py (Option Nat) :=
+  if cond then (do let b ← idx d i; pure (some b.toNat)) else pure none
+
 /-! ### G1 / G2: availability mask, then fixed-size records -/
 
 def mkRec4 (r : Bytes) : Py DtcRec := do
@@ -64,6 +68,8 @@ def mkRec6 (r : Bytes) : Py DtcRec := do
   let fu ← idx r 1
   let s ← idx r 5
   pure { id := be3 (r.drop 2), status := s.toNat, severity := (Severity.ofByte sev.toNat).toByte, funit := some fu.toNat }
+
+def mkRec (six : Bool) (r : Bytes) : Py DtcRec := if six then mkRec6 r else mkRec4 r
 
 /-- `first`: the cursor is at offset 2 (`actual_byte == 2`), which matters for sub-function 0x09 only -/
 def recordLoop (tol ign : Bool) (six sf09 : Bool) (first : Bool) (rest : Bytes) (acc : List DtcRec) : Py (List DtcRec) :=
@@ -77,7 +83,7 @@ def recordLoop (tol ign : Bool) (six sf09 : Bool) (first : Bool) (rest : Bytes) 
     let r := rest.take size
     if allZero r && ign then recordLoop tol ign six sf09 false (rest.drop size) acc
     else do
-      let x ← if six then mkRec6 r else mkRec4 r
+      let x ← mkRec six r
       recordLoop tol ign six sf09 false (rest.drop size) (x :: acc)
 termination_by rest.length
 decreasing_by all_goals (simp; split <;> omega)
@@ -86,7 +92,7 @@ def recordsInterpret (c : DtcCfg) (sf : Nat) (six : Bool) (d : Bytes) : Py DtcDa
   let e ← idx d 0
   let ms := hasMemSel sf
   guardPy (decide (d.length < (if ms then 3 else 2))) .invalid
-  let memSel ← if ms then do let b ← idx d 1; pure (some b.toNat) else pure none
+  let memSel ← optByte ms d 1
   let ab := if ms then 2 else 1
   let av ← idx d ab
   let recs ← recordLoop c.tol c.ign six (sf == 0x09) (ab + 1 == 2) (d.drop (ab + 1)) []
@@ -163,7 +169,7 @@ def snapByDtcInterpret (c : DtcCfg) (sf : Nat) (d : Bytes) : Py DtcData := do
   let e ← idx d 0
   let ms := hasMemSel sf
   guardPy (decide (d.length < (if ms then 6 else 5))) .invalid
-  let memSel ← if ms then do let b ← idx d 1; pure (some b.toNat) else pure none
+  let memSel ← optByte ms d 1
   let ab := if ms then 2 else 1
   let st ← idx d (ab + 3)
   guardPy (decide (c.didSize < 1 || c.didSize > 8)) .valueErr
@@ -233,7 +239,7 @@ def extByDtcInterpret (c : DtcCfg) (sf : Nat) (d : Bytes) : Py DtcData := do
   checkExtSize c.ext
   let ms := hasMemSel sf
   guardPy (decide (d.length < (if ms then 6 else 5))) .invalid
-  let memSel ← if ms then do let b ← idx d 1; pure (some b.toNat) else pure none
+  let memSel ← optByte ms d 1
   let ab := if ms then 2 else 1
   let st ← idx d (ab + 3)
   let id := be3 (d.drop ab)
@@ -293,12 +299,12 @@ def wwhInterpret (c : DtcCfg) (mask : Bool) (d : Bytes) : Py DtcData := do
   guardPy (decide (d.length < (if mask then 5 else 4))) .invalid
   let fg ← idx d 1
   let av ← idx d 2
-  let sevAv ← if mask then do let b ← idx d 3; pure (some (Severity.ofByte b.toNat).toByte) else pure none
+  let sevAv ← optByte mask d 3
   let fmt ← idx d (if mask then 4 else 3)
   guardPy (decide (fg.toNat > 0xFE)) .invalid
   guardPy (!(fmt.toNat == 4 || fmt.toNat == 2)) .invalid
   let recs ← wwhLoop c.tol c.ign (d.drop (if mask then 5 else 4)) []
-  pure { sfEcho := e.toNat, statusAvail := some av.toNat, sevAvail := sevAv, format := some fmt.toNat, fgid := some fg.toNat,
+  pure { sfEcho := e.toNat, statusAvail := some av.toNat, sevAvail := sevAv.map (fun b => (Severity.ofByte b).toByte), format := some fmt.toNat, fgid := some fg.toNat,
          count := recs.length, dtcs := recs }
 
 /-! ### the dispatcher and the client checks -/
@@ -331,14 +337,19 @@ structure DtcReqCtx where
   fgid : Option Nat := none
   deriving DecidableEq, Repr
 
-/-- the checks of `Client.read_dtc_information` after `interpret_response` -/
-def dtcPost (q : DtcReqCtx) (r : DtcData) : Py Unit := do
+/-- DTC number of a snapshot reply (checked only when exactly one DTC came back) -/
+def postSnapDtc (q : DtcReqCtx) (r : DtcData) : Py Unit :=
   let sf := q.sf.toNat
   if sf == 0x04 || sf == 0x18 then
     match r.dtcs, q.dtc with
     | [x], some want => guardPy (want != x.id) .unexpected
     | [_], none => throw .assertErr
     | _, _ => pure ()
+  else pure ()
+
+/-- snapshot record number (not for 0xFF = all records) -/
+def postSnapRec (q : DtcReqCtx) (r : DtcData) : Py Unit :=
+  let sf := q.sf.toNat
   if sf == 0x05 || sf == 0x04 || sf == 0x18 then
     match q.snapRec with
     | none => throw .assertErr
@@ -346,6 +357,11 @@ def dtcPost (q : DtcReqCtx) (r : DtcData) : Py Unit := do
       match r.dtcs with
       | [x] => guardPy (want != 0xFF && x.snaps.any (fun s => s.record != want)) .unexpected
       | _ => pure ()
+  else pure ()
+
+/-- extended-data record number (values from 0xF0 address groups of records) -/
+def postExtRec (q : DtcReqCtx) (r : DtcData) : Py Unit :=
+  let sf := q.sf.toNat
   if sf == 0x06 || sf == 0x10 || sf == 0x19 then
     match q.extRec with
     | none => throw .assertErr
@@ -353,18 +369,39 @@ def dtcPost (q : DtcReqCtx) (r : DtcData) : Py Unit := do
       match r.dtcs with
       | [x] => guardPy (decide (want < 0xF0) && x.ext.any (fun e => e.1 != want)) .unexpected
       | _ => pure ()
+  else pure ()
+
+def postMemSel (q : DtcReqCtx) (r : DtcData) : Py Unit :=
+  let sf := q.sf.toNat
   if sf == 0x17 || sf == 0x18 || sf == 0x19 then
     match q.memSel with
     | some want => guardPy (some want != r.memSel) .unexpected
     | none => pure ()
-  if sf == 0x16 then
+  else pure ()
+
+def postExtByRecord (q : DtcReqCtx) (r : DtcData) : Py Unit :=
+  if q.sf.toNat == 0x16 then
     match q.extRec with
     | some want => guardPy (r.dtcs.any (fun x => x.ext.any (fun e => e.1 != want))) .unexpected
     | none => pure ()
+  else pure ()
+
+def postFgid (q : DtcReqCtx) (r : DtcData) : Py Unit :=
+  let sf := q.sf.toNat
   if sf == 0x55 || sf == 0x42 then
     match r.fgid, q.fgid with
     | some got, some want => guardPy (want != got) .unexpected
     | _, _ => throw .assertErr
+  else pure ()
+
+/-- the checks of `Client.read_dtc_information` after `interpret_response` -/
+def dtcPost (q : DtcReqCtx) (r : DtcData) : Py Unit := do
+  postSnapDtc q r
+  postSnapRec q r
+  postExtRec q r
+  postMemSel q r
+  postExtByRecord q r
+  postFgid q r
 
 /-- `Client.read_dtc_information` from the reply on: the sub-function echo is reported before any decoding error -/
 def dtcClient (c : DtcCfg) (q : DtcReqCtx) (d : Bytes) : Py DtcData :=
